@@ -241,8 +241,8 @@ package fontscan
 //
 //@ func FontMap.AddFont C14
 //@   mode int
-//@   ensures [invalidates] implies(err == nil, !fm.built)
-//@   ensures [cache-cleared] implies(err == nil, len(fm.lru.m) == 0)
+//@   ensures [invalidates] implies(result == nil, !fm.built)
+//@   ensures [cache-cleared] implies(result == nil, len(fm.lru.m) == 0)
 //@   modifies unspecified
 //
 //@ func FontMap.UseSystemFonts C14
@@ -380,7 +380,19 @@ package fontscan
 // Incremental refresh: an indexed entry is reused only if the file's modification time is exactly the indexed one;
 // whatever entry is appended carries the file's current modification time (so a replaced file is rescanned).
 //@ opaque mtimeOf(info os.FileInfo) timeStamp
-//@ trusted newTimeStamp
+//   mtimeOf(info) is by definition the nanosecond Unix time of info.ModTime(): unixNanoOf is time.Time.UnixNano as a
+//   function of the time value (both std functions trusted); newTimeStamp is verified to record exactly that value -
+//   any coarser unit would make two versions of a file written close together indistinguishable.
+//@ opaque unixNanoOf(wall uint64, ext int64) int64
+//@ trusted std:time.Time.UnixNano
+//@   ensures [function-of-the-time] result == unixNanoOf(t.wall, t.ext)
+//@   modifies nothing
+//@ trusted std:io/fs.FileInfo.ModTime
+//@   params info
+//@   ensures [defines-mtime] unixNanoOf(result.wall, result.ext) == int64(mtimeOf(info))
+//@   modifies nothing
+//@ func newTimeStamp C16
+//@   mode int
 //@   ensures [mtime] result == mtimeOf(file)
 //@   modifies nothing
 //@ trusted newFootprintFromLoader
@@ -509,4 +521,26 @@ package fontscan
 //@   requires [font] f != nil
 //@   ensures [aspect-set] result.Aspect.Style != 0 && result.Aspect.Stretch != 0 && result.Aspect.Weight != 0
 //@   ensures [user-provided] result.isUserProvided
+//@   modifies unspecified
+//
+// Family selection ("independent of earlier lookups"): the family crible is a buffer shared between queries; the
+// substitution pass must start from an empty crible, otherwise scores of the previous query leak into this one.
+// reset (a delete loop over all keys) is trusted to empty the map.
+//@ trusted familyCrible.reset
+//@   ensures [emptied] len(fc) == 0
+//@   modifies unspecified
+//@ trusted familyCrible.fillWithSubstitutionsList
+//@   requires [starts-from-empty-crible] len(fc) == 0
+//@   modifies unspecified
+//@ func familyCrible.fillWithSubstitutions C14
+//@   mode int
+//@   requires [starts-from-empty-crible] len(fc) == 0
+//@   modifies unspecified
+//@ trusted fontSet.selectByFamiliesAndScript
+//@   modifies unspecified
+//@ func fontSet.selectByFamilyExact C14
+//@   mode int
+//@   modifies unspecified
+//@ func fontSet.selectByFamilyWithSubs C14
+//@   mode int
 //@   modifies unspecified
